@@ -68,7 +68,11 @@ class ImportRule(Rule):
             self.pairs.add((m, p))
         elif name == 'set_ec_pub_key':
             self.ec_pub.append((self.member_of(args[1]), self.member_of(args[2]), args[3]))
-        elif name in ('BN_bin2bn', 'OSSL_PARAM_BLD_push_octet_string'):
+        if name in ('OSSL_PARAM_BLD_push_BN', 'OSSL_PARAM_BLD_push_octet_string') and len(args) > 1 and isinstance(args[1], Str):
+            fed = set(st.ts.get('fed', ()))
+            fed.add(args[1].text().split('\0')[0])
+            st.ts['fed'] = frozenset(fed)
+        if name in ('BN_bin2bn', 'OSSL_PARAM_BLD_push_octet_string'):
             buf, ln = (args[0], args[1]) if name == 'BN_bin2bn' else (args[2], args[3])
             if isinstance(buf, Ref) and buf.loc in st.ts.get('declen', {}):
                 self.len_checked += 1
@@ -416,6 +420,35 @@ def check_rsa_pss_type(chk, prog, env, model, rulename='C08.rsa-pss-type'):
     chk.rule(rulename, 'RSA JWK -> key type: RSA-PSS exactly for alg PS256/PS384/PS512 (entered at jwk_process_one)', n, bad, floor=6)
 
 
+PRIVATE_PARAM = {'process_rsa': 'd', 'process_ec': 'priv', 'process_eddsa': 'priv'}
+
+
+def check_private_flag(chk, prog, env, model, rulename='C08.private-flag'):
+    """on every successful exit of an asymmetric importer: is_private_key == 1 exactly when the private component was decoded and fed
+    into the key on that path (a key marked private that holds no private part cannot sign; private material marked public leaks)"""
+    eff = effects.Effects(prog)
+    n = 0
+    bad = 0
+    for f, pname in sorted(PRIVATE_PARAM.items()):
+        for (unit, fn) in sorted(eff.ops_fields.get(f, ())):
+            rule, it, res, item = run_importer(prog, env, model, unit, fn)
+            for s_, rv in res:
+                if not (isinstance(rv, Int) and rv.v == 0) or flag_of(s_, item) == 1:
+                    continue
+                n += 1
+                pv = s_.mem.get((item, 'is_private_key'))
+                priv = isinstance(pv, Int) and pv.v == 1
+                fed = pname in s_.ts.get('fed', ())
+                if priv != fed:
+                    bad += 1
+                    chk.add(Finding(rulename, unit, fn, 'private-without-key' if priv else 'key-without-private-flag',
+                                    '%s returns success with is_private_key=%r on a path where the private component %s fed into the key'
+                                    % (fn, pv, 'was' if fed else 'was not')))
+                    break
+    chk.rule(rulename, 'asymmetric importers: is_private_key is set exactly on the successful paths that fed the private component into the key',
+             n, bad, floor=6)
+
+
 def check_bits_provenance(chk, prog, env, model, rulename='C08.bits-provenance'):
     """at every successful exit of every asymmetric importer, item->bits holds what EVP_PKEY_get_size_t_param(pkey, "bits", ..)
     wrote -- not a recomputed, rounded or overwritten number (the key-size floor of C09 compares exactly this field)"""
@@ -462,6 +495,7 @@ def run(chk, prog, tier):
     chk.guard('bits provenance', check_bits_provenance, chk, prog, env, model)
     chk.guard('key alg attribute', check_key_alg_attribute, chk, prog, env, model)
     chk.guard('rsa-pss type', check_rsa_pss_type, chk, prog, env, model)
+    chk.guard('private flag', check_private_flag, chk, prog, env, model)
     chk.assumptions += ['equality of key material and the PEM round trip are numeric facts inside OpenSSL and NOT decided']
     return chk.finish(
         'Table and sibling agreement.',
